@@ -245,6 +245,14 @@ def check(ctx):
         adds = [(t, v, s2) for t, v, s2, k in iter_stores(poll.node) if isinstance(v, ast.BinOp) and isinstance(v.op, ast.Add) and {canon(v.left), canon(v.right)} == {"self.u", vname}]
         ctx.check(bool(adds), poll, s, "candidates = incumbent + displacement", "poll candidates are not the incumbent plus the displacement", construct="poll candidates not incumbent + displacement")
 
+    # ------------------------------------------------------------------ R5
+    ctx.rule("R5", "poll candidates are only ever snapped to the search grid the incumbent lies on", floor=0)
+    for c, tg in prog.calls_in(poll):
+        if any(isinstance(t, FunctionInfo) and t.name == "force_to_grid" for t in tg) and len(c.args) >= 2:
+            okg = canon(c.args[1]) in ("OS[search_mesh_size]", "self.search_mesh_size")
+            ctx.check(okg, poll, c, "poll candidates snapped to the search mesh", f"poll candidates are snapped to a grid of size '{canon(c.args[1])}', not the search mesh: evaluated points are displaced by up to half of that cell from incumbent + mesh_size * direction",
+                      construct=f"poll candidates forced to grid {canon(c.args[1])}")
+
     # ------------------------------------------------------------------ R4
     ctx.rule("R4", "polled row deleted and counter advanced on every evaluating path; loop bounded by 2*D; basis generated once", floor=4)
     cfg = cfg_of(poll)
